@@ -253,8 +253,10 @@ def sigma_filter(filename, region, step_size, box_size, shape, domask,
     barrier.wait()
 
     logging.debug("background subtraction")
-    data[0 + ymin - data_row_min: data.shape[0] -
-         (data_row_max - ymax), :] -= ibkg[ymin:ymax, :]
+    # subtract the background from the whole block (including the rows that
+    # belong to the neighbouring stripes) so that the noise is not biased by
+    # the background level near the stripe boundaries
+    data -= ibkg[data_row_min:data_row_max, :]
     logging.debug(".. done ")
 
     # reset/recycle the vals array
